@@ -733,6 +733,9 @@ static void script_vnacal_t8_ab(Script &S) {
     static AB line = mk(S_const(0.1, cd(0.5, -0.5), cd(0.5, -0.5), 0.1));
     static AB mapped = mk(S_const(0.3, 0, 0, cd(0, 0.5)));     // seen from the VNA: port 1 <- 0.3, port 2 <- 0.5i
     static AB dut = mk(S_dut());
+    static AB refl2 = mk(S_const(0, 0, 0, cd(0.6, 0.1)));
+    static AB refl1 = mk(S_const(cd(-0.4, 0.2), 0, 0, 0));
+    static AB refl3 = mk(S_const(0, 0, 0, cd(0.2, -0.7)));
     VC_CREATE(0);
     VN_ALLOC(0, VNACAL_T8, 2, 2, 3);
     VN_SETF(0, FREQ3);
@@ -745,6 +748,14 @@ static void script_vnacal_t8_ab(Script &S) {
     S.add("vnacal_new_add_through", true, [](World &w) { RET_INT0(w, vnacal_new_add_through(w.vn[0], thru.a->ptr(), 2, 2, thru.b->ptr(), 2, 2, 1, 2)); });
     S.add("vnacal_new_add_line", true, [](World &w) { int s[4] = {w.par[0], w.par[1], w.par[1], w.par[0]}; RET_INT0(w, vnacal_new_add_line(w.vn[0], line.a->ptr(), 2, 2, line.b->ptr(), 2, 2, s, 1, 2)); });
     S.add("vnacal_new_add_mapped_matrix", true, [](World &w) { int s[4] = {w.par[2], VNACAL_ZERO, VNACAL_ZERO, w.par[3]}; int map[2] = {2, 1}; RET_INT0(w, vnacal_new_add_mapped_matrix(w.vn[0], mapped.a->ptr(), 2, 2, mapped.b->ptr(), 2, 2, s, 2, 2, map)); });
+    // more distinct parameters than the initial size of the vnacal_new_t parameter hash (8): the table is
+    // expanded inside an add (its failure is absorbed by design)
+    PAR_SCALAR(4, 0.6, 0.1);
+    PAR_SCALAR(5, -0.4, 0.2);
+    PAR_SCALAR(6, 0.2, -0.7);
+    S.add("vnacal_new_add_single_reflect", true, [](World &w) { RET_INT0(w, vnacal_new_add_single_reflect(w.vn[0], refl2.a->ptr(), 2, 2, refl2.b->ptr(), 2, 2, w.par[4], 2)); });
+    S.add("vnacal_new_add_single_reflect", true, [](World &w) { RET_INT0(w, vnacal_new_add_single_reflect(w.vn[0], refl1.a->ptr(), 2, 2, refl1.b->ptr(), 2, 2, w.par[5], 1)); });
+    S.add("vnacal_new_add_single_reflect", true, [](World &w) { RET_INT0(w, vnacal_new_add_single_reflect(w.vn[0], refl3.a->ptr(), 2, 2, refl3.b->ptr(), 2, 2, w.par[6], 2)); });
     VN_SOLVE(0);
     VC_ADDCAL(0, 0, "t8");
     S.add("vnadata_alloc", true, [](World &w) { RET_PTR(w, vnadata_alloc(errlog_fn, &w.log), w.vd[0]); });
